@@ -18,7 +18,7 @@ from detsim.kernel import EventLog, jdump, short_hash
 from detsim.sched import Sched, SimCancelled, StepBudgetExceeded, Replay, RoundRobin, draw_decider, Decider, wrap_module_locks, sut_code_objects
 from checks.common import CheckBase
 
-RUN_STEP_BUDGET = 1500000
+RUN_STEP_BUDGET = 600000
 
 
 def r_hp(rng, maxdeg):
@@ -295,7 +295,7 @@ class C20(CheckBase):
                 if n >= 1:
                     fault_map[(o['id'], min(n, 1 + int(o['abort'] * n)))] = 'cancel'
         instr = trace.get('granularity') == 'instr' and not fault_map
-        sched = Sched(T, decider, log, self.is_sut_file, max_steps=RUN_STEP_BUDGET * (8 if instr else 1), faults=fault_map, stalls=stalls,
+        sched = Sched(T, decider, log, self.is_sut_file, max_steps=RUN_STEP_BUDGET * (2 if instr else 1), faults=fault_map, stalls=stalls,
                       instruction_codes=self.sut_codes if instr else None)
         if instr:
             bump('instruction_granularity_runs')
@@ -350,6 +350,10 @@ class C20(CheckBase):
             bump('deliveries_' + status)
             if status != 'ok':
                 log.add('req-', tid, o['id'], status)
+                if status == 'budget' and not instr:
+                    # bounded liveness: once faults stop every request must be answered within the run's
+                    # step budget (1.5 million line events for at most ~60 requests of a few hundred each)
+                    V('no-answer-within-step-budget', r['ep'], {'url': url, 'steps': sched.steps})
                 if status == 'transport-raised':
                     V('transport-raised', r['ep'], {'url': url, 'exc': type(resp).__name__, 'msg': str(resp)[:300]})
                 return
